@@ -50,6 +50,11 @@ struct LoopCfg {
 	/// (Verus' `for` does not support `continue`; `while` does). Only for `X.iter()` on a Vec/slice place expression.
 	#[serde(default)]
 	index_loop: bool,
+	/// with index_loop: `X` is a HashMap iterated by reference (`for (k, v) in X.iter()`): the loop runs over
+	/// `let vx_entsN = X.vf_entries()` (every entry once, unspecified order — prelude contract) and binds
+	/// `let PAT = vx_entsN[vx_iN];` (a copy of the `(&K, &V)` pair, the item type of the original iterator)
+	#[serde(default)]
+	map_entries: bool,
 }
 
 #[derive(Deserialize, Clone, Debug, Default)]
@@ -745,21 +750,40 @@ impl<'ast, 'c> Visit<'ast> for FnVisitor<'c> {
 			let (ps, pe) = br(fl.pat.span());
 			let iv = format!("vx_i{}", ord);
 			let recv_text = oneline(&self.src[recv.0..recv.1]);
-			self.push(ws, bs, vec![
-				Part::Text(format!("{{ let mut {}: usize = 0;\nwhile {} < ", iv, iv)),
-				Part::Src(recv.0, recv.1),
-				Part::Text(".len()\n".to_string()),
-			], "L20");
+			let ents = format!("vx_ents{}", ord);
+			if lc.map_entries {
+				self.push(ws, bs, vec![
+					// (the entries vector is declared before the loop's block so that proof text after the loop can name it;
+					// the loop must therefore be a statement)
+					Part::Text(format!("let {} = ", ents)),
+					Part::Src(recv.0, recv.1),
+					Part::Text(format!(".vf_entries(); {{ let mut {}: usize = 0;\nwhile {} < {}.len()\n", iv, iv, ents)),
+				], "L20");
+			} else {
+				self.push(ws, bs, vec![
+					Part::Text(format!("{{ let mut {}: usize = 0;\nwhile {} < ", iv, iv)),
+					Part::Src(recv.0, recv.1),
+					Part::Text(".len()\n".to_string()),
+				], "L20");
+			}
+			let recv_text = if lc.map_entries { ents.clone() } else { recv_text };
 			let mut inv = vec![Clause::Plain(format!("{} <= {}.len()", iv, recv_text))];
 			inv.extend(lc.invariant.iter().cloned());
 			let mut parts = self.clause_parts("invariant", "invariant", &inv, "        ");
 			let d = lc.decreases.clone().unwrap_or(format!("{}.len() - {}", recv_text, iv));
 			parts.push(Part::Text(format!("\n        decreases {},\n    ", d)));
 			self.push(bs, bs, parts, "A2");
-			self.push(bs + 1, bs + 1, vec![
-				Part::Text("\nlet ".to_string()), Part::Src(ps, pe), Part::Text(" = &".to_string()), Part::Src(recv.0, recv.1),
-				Part::Text(format!("[{}]; {} = {} + 1;\n", iv, iv, iv)),
-			], "L20");
+			if lc.map_entries {
+				self.push(bs + 1, bs + 1, vec![
+					Part::Text("\nlet ".to_string()), Part::Src(ps, pe),
+					Part::Text(format!(" = {}[{}]; {} = {} + 1;\n", ents, iv, iv, iv)),
+				], "L20");
+			} else {
+				self.push(bs + 1, bs + 1, vec![
+					Part::Text("\nlet ".to_string()), Part::Src(ps, pe), Part::Text(" = &".to_string()), Part::Src(recv.0, recv.1),
+					Part::Text(format!("[{}]; {} = {} + 1;\n", iv, iv, iv)),
+				], "L20");
+			}
 			self.push(we, we, vec![Part::Text(" }".to_string())], "L20");
 			self.push(we, we, vec![Part::Text(";".to_string())], "A2");
 			syn::visit::visit_expr_for_loop(self, fl);
